@@ -111,6 +111,28 @@ def main(tier):
             for j, b in zip(js, vals):
                 bits[j] = b
         calls.append({"fn": "quantize_weight", "layout": rng.choice([None, None, None, "transposed", "strided", "offset"]), "dtype": dtype, "shape": shape, "bits": bits, "qtype": qt, "axis": axis, "group_size": gs, "optimizer": None, "requant": dtype != "bfloat16"})
+    # histories: the same Parameter / tensor object quantized, updated in place, quantized again - must equal a fresh tensor of the same values
+    hcalls = []
+    for i in range(16 if tier == "quick" else 100):
+        dtype = ["float32", "float16", "bfloat16"][i % 3]
+        shape, axis = rng.choice([([4, 8], 0), ([4, 8], -1), ([3, 2, 4], 0)])
+        per = prod(shape) // (shape[0] if axis == 0 else shape[-1])
+        bits_ = [N.encode_nearest(Fraction(rng.uniform(-1, 1) * 10.0 ** rng.uniform(-2, 1)), dtype) for _ in range(prod(shape))]
+        hcalls.append({"fn": "quantize_weight_history", "dtype": dtype, "shape": shape, "bits": bits_, "qtype": ["qint4", "qint2"][i % 2], "axis": axis, "group_size": rng.choice([None, None] + [g for g in (2, 4) if per % g == 0]),
+                       "optimizer": rng.choice([None, "max"]), "update": ["data_mul", "data_shrink", "data_copy", "data_index", "no_grad_mul"][i % 5], "requires_grad": rng.random() < 0.7, "no_grad_calls": rng.random() < 0.5})
+    hres = ck.impl("numq", {"calls": hcalls}, timeout=1200)
+    if isinstance(hres, dict):
+        ck.violation("implementation worker crashed (history stream): " + hres.get("stderr", "")[-300:], {"stderr": hres.get("stderr")})
+    else:
+        for c, r in zip(hcalls, hres):
+            cfg = {k: c[k] for k in ("dtype", "qtype", "shape", "axis", "group_size", "update", "requires_grad", "no_grad_calls", "optimizer")}
+            ck.count("stream", "history:" + c["update"])
+            if not r["ok"]:
+                ck.violation(f"quantize_weight raised {r['exn']} on a Parameter ({c['update']})", {"config": cfg, "exception": r, "bits": c["bits"]})
+            elif not r["same"]:
+                ck.violation(f"quantize_weight of a Parameter after an in-place update ({c['update']}) differs from quantizing a fresh tensor holding the same values: scale / zero-point depend on the history of the object, not on its values",
+                             {"config": cfg, "bits": c["bits"], "observed": r})
+            ck.case(("history", c["dtype"], c["qtype"], c["update"], tuple(c["bits"])), nontrivial=True)
     for c_ in calls:
         ck.count("layout", c_.get("layout") or "contiguous")
     res = ck.impl("numq", {"calls": calls}, timeout=2400)
